@@ -428,7 +428,12 @@ func addUserID(e *Entity, packets *packet.Reader, pkt *packet.UserId) error {
 			if err = e.PrimaryKey.VerifyUserIdSignature(pkt.Id, e.PrimaryKey, sig); err != nil {
 				return errors.StructuralError("user ID self-signature invalid: " + err.Error())
 			}
-			identity.SelfSignature = sig
+			// RFC 4880, section 5.2.3.3: of several self-signatures the most recent one
+			// takes priority, in whatever order they are stored (of two made in the same
+			// second: the later one in the stream, as GnuPG does).
+			if identity.SelfSignature == nil || !sig.CreationTime.Before(identity.SelfSignature.CreationTime) {
+				identity.SelfSignature = sig
+			}
 			e.Identities[pkt.Id] = identity
 		} else {
 			identity.Signatures = append(identity.Signatures, sig)
